@@ -512,6 +512,43 @@ func runC20(t *testing.T, c StructCase) (v *h.Violation, info h.Info) {
 			}
 		}
 		info.Class("same-fields-applied-again")
+		// (0b) The operator corrects the secrets that could not be decoded (all of them unmarshaler
+		// fields here), the store polls, and the program applies the same Fields once more: now every
+		// field is filled and no error is reported - a failed Apply leaves nothing behind.
+		onlyBin := len(failing) > 0
+		for i := range failing {
+			if k := c.Fields[i].Kind; k != "bin" && k != "binptr" {
+				onlyBin = false
+			}
+		}
+		if onlyBin {
+			for i := range failing {
+				name := full(c.Fields[i].Tag)
+				served[name] = []byte("corrected:" + name)
+				svc.Set(name, 7, served[name])
+			}
+			if err := st.Refresh(context.Background()); err != nil {
+				return h.V("harness", "Refresh: %v", err), info
+			}
+			if err := fsFirst.Apply(context.Background(), st); err != nil {
+				return h.V("supported-shapes-accepted", "the secrets of the fields that could not be decoded (%v) were corrected and the store has polled; applying the same Fields again still fails: %v", failing, err), info
+			}
+			for i := range failing {
+				b := served[full(c.Fields[i].Tag)]
+				switch fv := el.Field(fieldIdx[i]); c.Fields[i].Kind {
+				case "bin":
+					if got := fv.Interface().(binVal).Got; !bytes.Equal(got, b) {
+						return h.V("field-holds-current-value", "field %d (an unmarshaler value) after its secret was corrected and the same Fields applied again: UnmarshalBinary saw %q, the store serves %q", i, got, b), info
+					}
+				case "binptr":
+					if pv := fv.Interface().(*binVal); pv == nil || !bytes.Equal(pv.Got, b) {
+						return h.V("field-holds-current-value", "field %d (a pointer to an unmarshaler) after its secret was corrected and the same Fields applied again (no error reported): holds %v, the store serves %q", i, pv, b), info
+					}
+				}
+			}
+			info.Class("failed-fields-corrected-and-applied-again")
+			return nil, info
+		}
 	}
 	if c.ViaApply && len(failing) == 0 && tagged > 0 {
 		// (a) The same *Fields value is applied to ANOTHER store later (the first process's store is gone,
